@@ -84,3 +84,16 @@ func RuleText(prop string) string {
 
 // RuleTextC11 is a no-op hook kept for symmetry.
 func RuleTextC11() {}
+
+// fullKey is the Key map a request carries: the key attributes plus, for the
+// key-extra fault, attributes that are not part of the key schema.
+func fullKey(cmd *Cmd) Item {
+	if len(cmd.KeyExtra) == 0 {
+		return cmd.Key
+	}
+	k := cmd.Key.Clone()
+	for n, v := range cmd.KeyExtra {
+		k[n] = v
+	}
+	return k
+}
